@@ -324,11 +324,12 @@ func (m *MemMapFs) Rename(oldname, newname string) error {
 		return nil
 	}
 
-	m.mu.RLock()
-	defer m.mu.RUnlock()
+	// Look the source up and move it in one critical section: releasing the read lock
+	// before taking the write lock let a concurrent Remove or Rename take the entry away
+	// in between, and the error returns left the mutex in the wrong state.
+	m.mu.Lock()
+	defer m.mu.Unlock()
 	if _, ok := m.getData()[oldname]; ok {
-		m.mu.RUnlock()
-		m.mu.Lock()
 		err := m.unRegisterWithParent(oldname)
 		if err != nil {
 			return err
@@ -346,8 +347,6 @@ func (m *MemMapFs) Rename(oldname, newname string) error {
 		delete(m.getData(), oldname)
 
 		m.registerWithParent(fileData, 0)
-		m.mu.Unlock()
-		m.mu.RLock()
 	} else {
 		return &os.PathError{Op: "rename", Path: oldname, Err: ErrFileNotFound}
 	}
